@@ -564,3 +564,30 @@ Section Block.
     - unfold sub1, mj_level. apply filter_len_le.
   Qed.
 End Block.
+
+(* ---------------------------------------------------------------- mj_default with enough fuel is the one-step run *)
+Theorem mj_default_MJ : forall fuel S n T, Inv S T -> (0 <= T)%Z -> (Z.to_nat T + length S < fuel)%nat ->
+  MJ S n (mj_default fuel S n).
+Proof.
+  induction fuel as [|f IH]; intros S n T HI HT0 Hf; [lia|]. rewrite mj_default_unfold.
+  destruct (mx S <=? 0)%Z eqn:Hm; [apply MJ_vse, Hm|].
+  destruct (proj1 (mx_pos S T HI HT0) Hm) as [Hne HT].
+  pose proof (aggregate_Inv S T HI HT) as Ha. rewrite Ha. cbv zeta.
+  set (medians := map (fun cd : C * cscores => (fst cd, med_of (snd cd))) S) in *.
+  destruct (Nat.eqb (count_tie (gnb medians n)) 0) eqn:Hc; [apply (MJ_done S n medians Hm Ha Hc)|].
+  destruct (Nat.ltb 0 (untied_of (gnb medians n))) eqn:Hu.
+  - apply (MJ_win S n medians _ Hm Ha Hc Hu). apply (IH _ _ T); [apply Inv_filter, HI|exact HT0|].
+    assert (Hlt : (length (rest_of S (gnb medians n)) < length S)%nat).
+    { destruct (gnb_shape medians n) as (cs & k & tied & E). apply Nat.ltb_lt in Hu. rewrite E, untied_shape in Hu.
+      destruct cs as [|c0 cs']; [simpl in Hu; lia|].
+      assert (Hin : In c0 (map fst S)).
+      { replace (map fst S) with (map fst medians) by (unfold medians; rewrite map_map; reflexivity).
+        apply (get_n_best_cand_in medians n). fold (gnb medians n). rewrite E. left. reflexivity. }
+      apply in_map_iff in Hin. destruct Hin as ([c d] & Ec & Hin). cbn [fst] in Ec. subst c.
+      unfold rest_of. apply (filter_length_drop _ _ (c0, d) Hin). cbn [fst]. rewrite E, wc_shape. cbn [cmem]. unfold ceqb. rewrite Pos.eqb_refl. reflexivity. }
+    lia.
+  - destruct (block_state S T n HI HT Hc Hu) as (E & HI' & Hch & Hlen). fold medians in E, HI', Hch, Hlen. rewrite E.
+    apply (block_chain S T n HI HT Hc Hu). fold medians.
+    set (ch := mj_ch (mj_level S (tied_of (gnb medians n))) medians) in *.
+    apply (IH _ _ (T - ch)%Z); [exact HI'|lia|]. rewrite own_remove_length. lia.
+Qed.
